@@ -9,7 +9,8 @@ CONSTANTS MaxEntries
 S(str) == str   \* readability only
 
 Pats == { <<"a",".","x">>, <<"b",".","x">>, <<"*",".","x">>, <<"a",".","*">>, <<"*">>, DEFAULT, <<"a","X","x">> }
-Hosts == { <<"a",".","x">>, <<"b",".","x">>, <<"c",".","x">>, <<"a",".","y">>, <<"a","X","x">>, <<"x">>, DEFAULT, <<"a",".","b",".","x">> }
+Hosts == { <<"a",".","x">>, <<"b",".","x">>, <<"c",".","x">>, <<"a",".","y">>, <<"a","X","x">>, <<"x">>, DEFAULT, <<"a",".","b",".","x">>,
+           <<"a",".","x","y">>, <<"z","a",".","x">> }     \* hosts that extend / are extended by a literal pattern (anchoring at both ends)
 
 Protos == <<"udp", "tcp", "tls", "udp">>
 \* entry attributes are derived from the position so that every entry's answer is distinguishable
